@@ -1,6 +1,13 @@
 /* LD_PRELOAD fault shim (C03, C11): scripted outcomes for read/write/fsync/close.
  *   PV_FAULT_RANDOM=<seed>:<pshort%>:<peintr%>   random short counts / EINTR on every read and write
  *   PV_FAULTS=w3=e28,r2=eintr,w1=short1,f1=e5,c2=e5   the k-th call of an op (on a data fd) gets the action
+ *   PV_FAULT_MAXSHORT=<n>   random short counts are drawn from 1..n (default: 1..count-1, which for a 64 KiB request on a
+ *                           small input hardly ever shortens anything); a short count is reported as fired only when it
+ *                           actually shortened the transfer (the call returned exactly the clamped count)
+ *   PV_FAULT_FULL=<fd>:<bytes>:<name>   the device behind <fd> (-1 = every descriptor > 2) fills up after <bytes> bytes, the way a
+ *                           full disk or a file-size limit looks to a program: the write that crosses the limit is SHORT (it
+ *                           accepts what still fits) and every later write fails with ENOSPC; only in the process whose
+ *                           program name ends with <name>
  *   PV_FAULT_FDS=0,1,...     restrict to these descriptors (default: every fd except 2)
  *   PV_FAULT_REPORT=<path>   at exit append "calls=<n> fired=<m>"
  *   PV_DELAY_AFTER_WRITE_US=<us> / PV_DELAY_BEFORE_READ_US=<us>   sleep around every write / read on descriptors > 2
@@ -27,6 +34,7 @@ static struct rule rules[64];
 static int nrules = 0;
 static int fd_filter[64];
 static int nfd_filter = 0;
+static long max_short = 0;
 static pthread_mutex_t mu = PTHREAD_MUTEX_INITIALIZER;
 
 static void note_fired(void) {
@@ -56,6 +64,8 @@ static void init(void) {
     rng_state = seed * 6364136223846793005ULL + 1442695040888963407ULL;
     p_short = a; p_eintr = b; use_random = 1;
   }
+  const char *ms = getenv("PV_FAULT_MAXSHORT");
+  if (ms) max_short = atol(ms);
   const char *f = getenv("PV_FAULTS");
   if (f) {
     char *s = strdup(f), *tok, *save;
@@ -78,6 +88,21 @@ static void init(void) {
     free(s);
   }
   atexit(report);
+}
+
+static int full_fd = -2; static long full_left = 0;
+static void full_init(void) {
+  static int done = 0;
+  if (done) return;
+  done = 1;
+  const char *f = getenv("PV_FAULT_FULL");
+  if (!f) return;
+  int fd = 0; long lim = 0; char name[64] = "";
+  if (sscanf(f, "%d:%ld:%63s", &fd, &lim, name) < 2) return;
+  extern char *program_invocation_short_name;
+  size_t n = strlen(name), m = strlen(program_invocation_short_name);
+  if (n && (m < n || strcmp(program_invocation_short_name + m - n, name))) return;
+  full_fd = fd; full_left = lim;
 }
 
 static long delay_w = -1, delay_r = -1;
@@ -106,6 +131,12 @@ static unsigned rnd(void) {
 }
 
 /* returns: -2 = no fault; -1 = fail (errno set); >= 1 = clamp count to this */
+static void effective(void) {
+  pthread_mutex_lock(&mu);
+  ++fired; note_fired();
+  pthread_mutex_unlock(&mu);
+}
+
 static long decide(int op, size_t count) {
   long res = -2;
   pthread_mutex_lock(&mu);
@@ -114,9 +145,8 @@ static long decide(int op, size_t count) {
   ++calls;
   for (int i = 0; i < nrules; ++i) {
     if (rules[i].op == op && rules[i].k == k) {
-      ++fired; note_fired();
-      if (rules[i].kind == 0) { errno = EINTR; res = -1; }
-      else if (rules[i].kind == 2) { errno = (int)rules[i].arg; res = -1; }
+      if (rules[i].kind == 0) { ++fired; note_fired(); errno = EINTR; res = -1; }
+      else if (rules[i].kind == 2) { ++fired; note_fired(); errno = (int)rules[i].arg; res = -1; }
       else res = rules[i].arg;
       pthread_mutex_unlock(&mu);
       return res;
@@ -125,31 +155,54 @@ static long decide(int op, size_t count) {
   if (use_random && op < 2) {
     unsigned x = rnd() % 100;
     if ((int)x < p_eintr) { ++fired; note_fired(); errno = EINTR; res = -1; }
-    else if ((int)x < p_eintr + p_short && count > 1) { ++fired; note_fired(); res = 1 + rnd() % (count - 1); }
+    else if ((int)x < p_eintr + p_short && count > 1) {
+      size_t span = count - 1;
+      if (max_short > 0 && (size_t)max_short < span) span = (size_t)max_short;
+      res = 1 + rnd() % span;
+    }
   }
   pthread_mutex_unlock(&mu);
   return res;
 }
 
 ssize_t read(int fd, void *buf, size_t count) {
+  int clamped = 0;
   delays_init();
   if (delay_r > 0 && fd > 2) usleep(delay_r);
   if (watched(fd) && count) {
     long d = decide(0, count);
     if (d == -1) return -1;
-    if (d >= 1 && (size_t)d < count) count = d;
+    if (d >= 1 && (size_t)d < count) { count = d; clamped = 1; }
   }
-  return syscall(SYS_read, fd, buf, count);
+  ssize_t r = syscall(SYS_read, fd, buf, count);
+  if (clamped && r == (ssize_t)count) effective();
+  return r;
 }
 
 ssize_t write(int fd, const void *buf, size_t count) {
+  int clamped = 0;
+  pthread_mutex_lock(&mu);
+  init();
+  full_init();
+  if (count && (full_fd == fd || (full_fd == -1 && fd > 2))) {
+    if (full_left <= 0) { ++fired; note_fired(); pthread_mutex_unlock(&mu); errno = ENOSPC; return -1; }
+    if ((long)count > full_left) {
+      count = (size_t)full_left;
+      ++fired; note_fired();
+    }
+    full_left -= (long)count;
+    pthread_mutex_unlock(&mu);
+    return syscall(SYS_write, fd, buf, count);
+  }
+  pthread_mutex_unlock(&mu);
   if (watched(fd) && count) {
     long d = decide(1, count);
     if (d == -1) return -1;
-    if (d >= 1 && (size_t)d < count) count = d;
+    if (d >= 1 && (size_t)d < count) { count = d; clamped = 1; }
   }
   delays_init();
   ssize_t r = syscall(SYS_write, fd, buf, count);
+  if (clamped && r == (ssize_t)count) effective();
   if (delay_w > 0 && fd > 2 && r > 0) usleep(delay_w);
   return r;
 }
